@@ -224,6 +224,22 @@ def build(tier, seed):
     obs.append(Ob("C08.generators", "proof", [GEN + ":create_layer_of_gates", GEN + ":apply_gate_to_qubits", GEN + ":add_ancilla_register"], generators,
                   "layers hold one gate per qubit with its own parameter row; apply_gate_to_qubits adds one gate per DISTINCT qubit (unordered, duplicated collections), uses each row once, "
                   "keeps existing operations and the input circuit; ancilla registers widen by exactly a and keep the action (symbolic parameter rows)", timeout=600))
+    # ---- all circuit lengths / widths / control positions: structure over the abstract gate model (Engine V)
+    from vfw import cmodel, vcontract as vc
+    cs = cmodel.contracts()
+    fbn = vprop.enum_ob("x", [], lambda: range(2), _check_native, "").run
+
+    def setup_self(args, ns):
+        args["self"] = cmodel.mk_circuit(ns, "self")
+        cmodel.axioms()
+    obs.append(vprop.fn_ob("C08", cs["inverse"], {}, call=lambda ns, a: a["self"].inverse(), setup=setup_self, overrides=cmodel.overrides(), fallback=fbn,
+                           obid="C08.inverse.all_lengths.contract", timeout_ms=30000,
+                           desc="for circuits of ANY length: inverse keeps the width, operation j is the dagger of operation m-1-j on exactly the same qubit tuple; "
+                                "a non-gate operation trips the assertion"))
+    obs.append(vprop.fn_ob("C08", cs["controlled"], {}, call=lambda ns, a: a["self"].controlled(a["control_index"]), setup=setup_self, overrides=cmodel.overrides(), fallback=fbn,
+                           obid="C08.controlled.all_lengths.contract", timeout_ms=30000,
+                           desc="for circuits of ANY length and EVERY control index: width max(n,k)+1, operation j = gate_j.controlled(1) on (k, qubits of op j with indices >= k shifted by one), "
+                                "same order; the shift never produces k (loop invariant)"))
     obs.append(vprop.enum_ob("C08.native.enum", FNI + FNC + [GEN + ":create_layer_of_gates"], lambda: range(3), _check_native,
                              "bounded: native numeric inverse / controlled on a 4-qubit circuit with every control position; i-th parameter row on qubit i for layers up to 2000 qubits "
                              "(CPython set order)", exhaustive=False, timeout=900))
